@@ -297,6 +297,24 @@ class Run:
             want_end = ov[0][0] if flip else ov[-1][-1]
             if vals_of(p)[-1][-1] != want_end:
                 self.fail("append: the path does not end where the appended path ends")
+            # what was appended is the argument's segments, in order or reversed, after at most one joining line; only the very first
+            # point may have been moved, and only onto the receiver's end from within Point equality's tolerance (F24)
+            rev = [list(reversed(sv)) for sv in reversed(ov)]
+            want = rev if flip else ov
+            body = tail[-len(want):] if len(tail) >= len(want) else tail
+            close = lambda a, b: all(abs(u - v) <= 1e-9 * max(abs(u), abs(v)) for u, v in zip(a, b))
+            ok = len(body) == len(want) and len(tail) - len(want) in (0, 1)
+            if ok:
+                for k, (sg, wg) in enumerate(zip(body, want)):
+                    for j, (pa, pb) in enumerate(zip(sg, wg)):
+                        if pa != pb and not (k == 0 and j == 0 and close(pa, pb) and pa == ends_before[1]):
+                            ok = False
+                    ok = ok and len(sg) == len(wg)
+            if ok and len(tail) - len(want) == 1:
+                jl = tail[0]
+                ok = len(jl) == 2 and jl[0] == ends_before[1] and jl[1] == want[0][0]
+            if not ok:
+                self.fail("append: the appended part %r is not the argument's segments %r (in order or reversed) after at most one joining line" % (tail, ov))
         elif op == "clone":
             c = p.clone()
             self.paths.append(c)
